@@ -1108,11 +1108,14 @@ def d4_cast(ctx, idx, flag_attr):
     r = ctx.rule('D4.CAST', 'results of evaluation actions and intermediate products pass through cast_np_numeric_as_builtin', floor=11)
     with r:
         cast = idx.func(CAST)
-        # (a) the cast itself, by interpretation, in every mode its callers in eval_node / eval_product use
+        # (a) the cast itself, by interpretation, in every mode its callers (eval_node, eval_product, helpers split off them) use
         hook = make_hook(flag_attr, True)
         modes = {}
-        for q in (ME + '.eval_node', ME + '.eval_product'):
-            caller = idx.func(q)
+        idx.func(ME + '.eval_node'), idx.func(ME + '.eval_product')      # anchors
+        for caller in idx.package_funcs():
+            q = caller.qualname
+            if caller is cast:
+                continue
             for c in walk_own(caller.node):
                 if isinstance(c, ast.Call) and _resolves_to(idx, caller, c, cast):
                     extra = []
@@ -1129,7 +1132,7 @@ def d4_cast(ctx, idx, flag_attr):
                     key = tuple(sorted(kw.items()))
                     modes.setdefault(key, (kw, q.split('.')[-1], c, caller))
         if not modes:
-            raise AnalysisError('no call of cast_np_numeric_as_builtin in eval_node / eval_product')
+            raise AnalysisError('no call of cast_np_numeric_as_builtin in the package')
         samples = [('numpy float scalar', S.N(7.0, True)), ('numpy integer scalar', S.N(3, True)), ('numpy complex scalar', S.N(1 + 2j, True))]
         for key, (kw, who, c, caller) in sorted(modes.items(), key=lambda kv: repr(kv[0])):
             mode = ', '.join('%s=%r' % kv for kv in sorted(kw.items())) or 'default mode'
@@ -1188,6 +1191,10 @@ def d4_cast(ctx, idx, flag_attr):
                 continue
             n_ret += 1
             ok = _is_cast_expr(idx, fi, v, cast, derived)
+            if ok is None:
+                r.undecided('MathExpression.eval_node: return of the action result', 'cannot tell whether `%s` passes the action result '
+                            'through cast_np_numeric_as_builtin' % short(v), lib.loc(fi, ret))
+                continue
             r.check(ok, 'MathExpression.eval_node: return of the action result', 'cast_np_numeric_as_builtin(result, ...)',
                     'the value computed by an evaluation action is returned as `%s` without cast_np_numeric_as_builtin: numpy scalars '
                     '(from np.dot, norm, det, trace) reach the next operator as left operands and broadcast silently' % short(v),
@@ -1236,14 +1243,82 @@ def d4_cast(ctx, idx, flag_attr):
                     lib.loc(fp, u), expected='%s = cast_np_numeric_as_builtin(%s)' % (acc, acc))
 
 
+def _derived_closure(fn_node, seeds):
+    derived = set(seeds)
+    changed = True
+    while changed:
+        changed = False
+        for n in walk_own(fn_node):
+            if isinstance(n, ast.Assign) and lib.names_in(n.value) & derived:
+                for t in n.targets:
+                    for x in ast.walk(t):
+                        if isinstance(x, ast.Name) and x.id not in derived:
+                            derived.add(x.id)
+                            changed = True
+    return derived
+
+
 def _is_cast_expr(idx, fi, v, cast, derived, depth=0):
-    """v is cast(<derived name>, ...) or a local whose every binding is such a call."""
+    """True: v is cast(<derived name>, ...), a local whose every binding is such a call, or a call of a package helper all of whose
+    returns that hand out the derived argument are such casts.  False: a recognised hand-out without the cast.  None: unknown."""
+    if depth > 4:
+        return None
     if isinstance(v, ast.Call):
-        return bool(_resolves_to(idx, fi, v, cast) and v.args and isinstance(v.args[0], ast.Name) and v.args[0].id in derived)
-    if isinstance(v, ast.Name) and depth < 3:
+        if _resolves_to(idx, fi, v, cast):
+            return bool(v.args and isinstance(v.args[0], ast.Name) and v.args[0].id in derived)
+        try:
+            targets, how = idx.resolve_call(fi, v)
+        except Exception:
+            return None
+        fs = [t for t in targets if hasattr(t, 'node') and hasattr(t, 'qualname')]
+        if len(fs) != 1 or not fs[0].module.name.startswith('mitxgraders'):
+            return None
+        callee = fs[0]
+        a = callee.node.args
+        if a.vararg or a.kwarg or a.kwonlyargs:
+            return None
+        names = [x.arg for x in a.args]
+        if callee.cls is not None and not callee.is_static and isinstance(v.func, ast.Attribute):
+            names = names[1:]
+        seeds = set()
+        for nm, arg in list(zip(names, v.args)) + [(k.arg, k.value) for k in v.keywords if k.arg]:
+            if lib.names_in(arg) & derived:
+                if not isinstance(arg, ast.Name):
+                    return None       # the action result is transformed before the helper sees it
+                seeds.add(nm)
+        if not seeds:
+            return None
+        inner = _derived_closure(callee.node, seeds)
+        verdicts = []
+        for ret in lib.returns_of(callee.node):
+            if ret.value is None or not (lib.names_in(ret.value) & inner):
+                continue
+            verdicts.append(_is_cast_expr(idx, callee, ret.value, cast, inner, depth + 1))
+        if not verdicts:
+            return None
+        if any(x is False for x in verdicts):
+            return False
+        return True if all(x is True for x in verdicts) else None
+    if isinstance(v, ast.Name):
         vals = lib.assigned_value(fi.node, v.id)
-        return bool(vals) and all(_is_cast_expr(idx, fi, x, cast, derived, depth + 1) for x in vals)
-    return False
+        if not vals:
+            return False if v.id in derived else None      # a parameter carrying the action result, handed out bare
+        if v.id in derived and all(not (lib.names_in(x) & (derived - {v.id})) and not _resolves_to_cast(idx, fi, x, cast) for x in vals):
+            return False        # the variable that holds the raw action result itself
+        verdicts = [_is_cast_expr(idx, fi, x, cast, derived, depth + 1) for x in vals]
+        if any(x is False for x in verdicts):
+            return False
+        return True if all(x is True for x in verdicts) else None
+    if isinstance(v, ast.IfExp):
+        verdicts = [_is_cast_expr(idx, fi, x, cast, derived, depth + 1) for x in (v.body, v.orelse) if lib.names_in(x) & derived]
+        if any(x is False for x in verdicts):
+            return False
+        return True if verdicts and all(x is True for x in verdicts) else None
+    return None
+
+
+def _resolves_to_cast(idx, fi, x, cast):
+    return isinstance(x, ast.Call) and _resolves_to(idx, fi, x, cast)
 
 
 def _resolves_to(idx, fi, call, target):
@@ -1344,6 +1419,9 @@ MUTANTS = [
     # wave 5: refactorings with one slip (the filed diff is the mutant, the corrected diff is the benign twin below)
     Mutant('seeded-C14i-merged-add-sub-keeps-plus-for-zero-array', MA, hunks('C14i', MA), None, 'D1'),
     Mutant('seeded-C14j-explicit-shape-check-returns-before-tensor-guard', MA, hunks('C14j', MA), None, 'D1'),
+    Mutant('eval-node-screening-helper-returns-uncast', EXPR,
+           "        # All actions convert the input to a number, array, or list.\n        # (Only self.actions['arguments'] returns a list.)\n        as_list = result if isinstance(result, list) else [result]\n\n        # Check if there were any infinities or nan\n        if not allow_inf and any(np.any(np.isinf(r)) for r in as_list):\n            raise CalcOverflowError(\"Numerical overflow occurred. Does your expression \"\n                                    \"generate very large numbers?\")\n        if any(np.any(np.isnan(r)) for r in as_list):\n            return float('nan')\n\n        return cast_np_numeric_as_builtin(result, map_across_lists=True)\n",
+           "        return MathExpression._screen_result(result, allow_inf)\n\n    @staticmethod\n    def _screen_result(result, allow_inf):\n        entries = result if isinstance(result, list) else [result]\n        if not allow_inf:\n            for entry in entries:\n                if np.any(np.isinf(entry)):\n                    raise CalcOverflowError(\"Numerical overflow occurred.\")\n        for entry in entries:\n            if np.any(np.isnan(entry)):\n                return float('nan')\n        return result\n", 'D4'),
     Mutant('eval-product-cast-only-after-division', EXPR, "            # Need to cast np numerics as builtins here (in addition to during\n            # eval_node) because the result is changing shape\n            result = cast_np_numeric_as_builtin(result)",
            "            if op == '/':\n                result = cast_np_numeric_as_builtin(result)", 'D4'),
 ]
@@ -1387,5 +1465,8 @@ BENIGN = [
     Benign('C14j-corrected-explicit-shape-check', MA, hunks('C14j', MA, fixes=[
         ("        if is_vector(other):\n            if inner_length == len(other):\n                return\n",
          "        if self.ndim > 2 or other.ndim > 2:\n            raise MathArrayError(\"Multiplication of tensor arrays is not currently supported.\")\n\n        if is_vector(other):\n            if inner_length == len(other):\n                return\n")]), None),
+    Benign('eval-node-screening-and-cast-in-helper', EXPR,
+           "        # All actions convert the input to a number, array, or list.\n        # (Only self.actions['arguments'] returns a list.)\n        as_list = result if isinstance(result, list) else [result]\n\n        # Check if there were any infinities or nan\n        if not allow_inf and any(np.any(np.isinf(r)) for r in as_list):\n            raise CalcOverflowError(\"Numerical overflow occurred. Does your expression \"\n                                    \"generate very large numbers?\")\n        if any(np.any(np.isnan(r)) for r in as_list):\n            return float('nan')\n\n        return cast_np_numeric_as_builtin(result, map_across_lists=True)\n",
+           "        return MathExpression._screen_result(result, allow_inf)\n\n    @staticmethod\n    def _screen_result(result, allow_inf):\n        entries = result if isinstance(result, list) else [result]\n        if not allow_inf:\n            for entry in entries:\n                if np.any(np.isinf(entry)):\n                    raise CalcOverflowError(\"Numerical overflow occurred.\")\n        for entry in entries:\n            if np.any(np.isnan(entry)):\n                return float('nan')\n        return cast_np_numeric_as_builtin(result, map_across_lists=True)\n"),
     Benign('mul-collapse-without-isinstance', MA, "                if isinstance(result, MathArray) and is_numberlike_array(result):", "                if is_numberlike_array(result):"),
 ]
